@@ -230,6 +230,7 @@ Definition is_quote_b (q : N) : bool := N.eqb q 39 || N.eqb q 34.
 Definition genops_dialect (tw : textw) (names : list (list N * pystr)) : dialect :=
   mkDialect false false (c_int tw) (c_long tw) (c_idx tw) (tx_float tw)
             (fun l => if plain_ascii l then Some l else tlook names l)
+            (fun l => if plain_ascii l then Some l else tlook names l)   (* INST: the same reader (stringnl_noescape_pair) *)
             (fun l => if plain_ascii l then Some l else tlook names l)
             rue_dec
             (fun l => match l with [q] => if is_quote_b q then Some [] else None | _ => c_string tw l end)
